@@ -81,3 +81,10 @@ Proof.
   unfold P_query. simpl. unfold P_C02. rewrite (agree_model sel_C02 k c Hc); auto.
   intros q; destruct q; simpl; auto; discriminate.
 Qed.
+
+Lemma nodup_mk_conv d rs : NoDup (flat_map all_prefixes rs) -> NoDup (flat_map all_uris rs) -> exists c, mk_conv true d rs = Val c.
+Proof.
+  intros Hp Hu. apply mk_conv_ok; apply nodup_flat_pairwise.
+  - eapply Permutation_NoDup; [|exact Hu]. apply Permutation_flat_map. symmetry. apply sort_perm.
+  - eapply Permutation_NoDup; [|exact Hp]. apply Permutation_flat_map. symmetry. apply sort_perm.
+Qed.
